@@ -3,6 +3,7 @@ import XModel.Opt
 import XModel.OptBest
 import XProofs.OptBest2
 import XProofs.OptBest3
+import XModel.MeritNum
 /-!
 # C15 — the optimizer log is truthful: reload reproduces a row, steps never end worse
 
@@ -21,7 +22,9 @@ row tied to the state of the execution right after it was appended.  `C15_log_ro
 is weaker than it looks: `C15_truthful_loophole`.
 
 NOT covered: the penalty values themselves are the implementation's recorded numbers (the skeleton has no penalty
-function; the oracle harness/w_opt.py recomputes each logged penalty and target vector from the logged knobs),
+function; the oracle harness/w_opt.py recomputes each logged penalty and target vector from the logged knobs); what a
+penalty is a FUNCTION OF is `C15_penalty_is_function_of_current_weights` (over `XModel/MeritNum.lean`, the residual
+computation of the merit function, which the driver recomputes on doubles for every recorded evaluation: `resid_ok`),
 solve(), tag/enable/disable/clear_log.
 -/
 namespace Properties.C15
@@ -359,5 +362,47 @@ theorem C15_garbage_log_rejected :
   ⟨Opt.GarbageExample.garbage_truthful, Opt.GarbageExample.garbage_not_logKinds⟩
 
 end perPosition
+
+/-! ### what a logged penalty is a function of (`XModel/MeritNum.lean`) -/
+
+/-- the penalty of an evaluation of the merit function (a log row records its square root) is the sum of the squares
+    of the returned entries, and entry `i` is a function of the `i`-th raw value, wanted value, active flag and of the
+    weight target `i` has NOW (`weights` is the list of the `weight` attributes read at this call, `none` = no weight):
+    `(res[i] - value[i]) * weight[i]` for an active target, `0 * weight[i]` for a disabled one, each times `0` when the
+    point is matched and `zero_if_met` is set.  No weight read at an earlier call enters. -/
+theorem C15_penalty_is_function_of_current_weights {R : Type} (o : MeritNum.NumOps R) (res tar tols : List R)
+    (weights : List (Option R)) (mask : List Bool) (zeroIfMet : Bool) :
+    MeritNum.penalty2 o res tar tols weights mask zeroIfMet =
+      ((MeritNum.residuals o res tar tols weights mask zeroIfMet).map (fun e => o.mul e e)).foldl o.add o.zero ∧
+    ∀ (i : Nat) (r t : R) (w : Option R) (m : Bool),
+      res[i]? = some r → tar[i]? = some t → weights[i]? = some w → mask[i]? = some m →
+      (MeritNum.residuals o res tar tols weights mask zeroIfMet)[i]? =
+        some (MeritNum.scaleW o w
+          (if zeroIfMet && MeritNum.lastWithin o res tar tols mask then o.mul (if m then o.sub r t else o.zero) o.zero
+           else (if m then o.sub r t else o.zero))) := by
+  refine ⟨rfl, ?_⟩
+  intro i r t w m hr ht hw hm
+  rw [MeritNum.residuals_getElem?, hr, ht, hw, hm]
+  rfl
+
+/-- an active target, vector not zeroed: `(res[i] - value[i]) * weight[i]`, unscaled when the weight is `None` -/
+theorem C15_residual_of_active_target {R : Type} (o : MeritNum.NumOps R) (res tar tols : List R)
+    (weights : List (Option R)) (mask : List Bool) (zeroIfMet : Bool) (i : Nat) (r t : R) (w : Option R)
+    (hr : res[i]? = some r) (ht : tar[i]? = some t) (hw : weights[i]? = some w) (hm : mask[i]? = some true)
+    (hz : (zeroIfMet && MeritNum.lastWithin o res tar tols mask) = false) :
+    (MeritNum.residuals o res tar tols weights mask zeroIfMet)[i]? = some (MeritNum.scaleW o w (o.sub r t)) :=
+  MeritNum.residual_of_active o res tar tols weights mask zeroIfMet i r t w hr ht hw hm hz
+
+/-- non-vacuity: the same raw values with the weights (2, none) and then (3, none): residuals `[4, -5]` / `[6, -5]`,
+    penalties `41` / `61` — the penalty follows the weight; a weight cached from the first evaluation would give 41
+    twice -/
+example : MeritNum.residuals MeritNum.intOps [3, -5] [1, 0] [1, 1] [some 2, none] [true, true] false = [4, -5] ∧
+    MeritNum.penalty2 MeritNum.intOps [3, -5] [1, 0] [1, 1] [some 2, none] [true, true] false = 41 ∧
+    MeritNum.residuals MeritNum.intOps [3, -5] [1, 0] [1, 1] [some 3, none] [true, true] false = [6, -5] ∧
+    MeritNum.penalty2 MeritNum.intOps [3, -5] [1, 0] [1, 1] [some 3, none] [true, true] false = 61 := by decide
+
+/-- a matched point under `zero_if_met`: every entry is multiplied by zero -/
+example : MeritNum.residuals MeritNum.intOps [1, 7] [1, 0] [1, 1] [some 2, none] [true, false] true = [0, 0] ∧
+    MeritNum.residuals MeritNum.intOps [1, 7] [1, 0] [1, 1] [some 2, none] [true, true] true = [0, 7] := by decide
 
 end Properties.C15
